@@ -119,6 +119,22 @@ Section LoadProofs.
 
   Notation load := (load parse_hdr current_pchecks).
 
+  (** whatever windows the widening tries, a header that parses was parsed from a window inside the bytes available *)
+  Lemma widen_ok : forall fuel f off avail w h hs,
+    0 <= off -> 0 <= w <= avail -> off + avail <= Z.of_nat (length f) ->
+    widen parse_hdr fuel f off avail w = HdrOk h hs ->
+    exists w', 0 <= w' <= avail /\ parse_hdr (slice f off w') = HdrOk h hs.
+  Proof.
+    induction fuel as [|fuel IH]; intros f off avail w h hs Ho Hw Ha X; cbn [widen] in X.
+    - exists w. split; [lia|exact X].
+    - destruct (parse_hdr (slice f off w)) as [h0 hs0|c|] eqn:E.
+      + exists w. split; [lia|]. rewrite E. exact X.
+      + destruct ((w <? avail) && (w <? window_max)); [|discriminate].
+        apply IH in X; auto. unfold window_max. lia.
+      + destruct ((w <? avail) && (w <? window_max)); [|discriminate].
+        apply IH in X; auto. unfold window_max. lia.
+  Qed.
+
   (** Every byte range of the file a page load reads lies inside the file - or the load reports an error.
       For all files, all offsets (any int64), all page headers, both I/O paths, both page kinds. *)
   Theorem page_load_in_bounds : forall p k f off,
@@ -140,10 +156,11 @@ Section LoadProofs.
       set (avail := n - off). set (window := Z.min avail 256).
       assert (Hg : Z.min window avail = window) by (unfold window; lia).
       rewrite Hg.
-      destruct (parse_hdr (slice f off window)) as [h hs| c |] eqn:Ep.
-      + pose proof (parse_csize_i32 _ _ _ Ep) as Hi32. apply parse_consumes_given in Ep.
-        assert (Hlen : Z.of_nat (length (slice f off window)) = window).
-        { apply slice_length; unfold window, avail; lia. }
+      destruct (widen parse_hdr 8 f off avail window) as [h hs| c |] eqn:Ew.
+      + destruct (widen_ok 8 f off avail window h hs) as (w' & Hw' & Ep); try (unfold window, avail; lia); [exact Ew|].
+        pose proof (parse_csize_i32 _ _ _ Ep) as Hi32. apply parse_consumes_given in Ep.
+        assert (Hlen : Z.of_nat (length (slice f off w')) = w').
+        { apply slice_length; unfold window, avail in *; lia. }
         destruct (type_verdict k (ph_type h)); [left; eauto|].
         destruct ((ph_csize h <? 0) || (ph_csize h >? avail - Z.of_nat hs)) eqn:Ec; [left; eauto|].
         apply orb_false_iff in Ec. destruct Ec as [Ec1 Ec2]. apply Z.ltb_ge in Ec1.
@@ -167,9 +184,10 @@ Section LoadProofs.
       set (hr := Z.max 0 (Z.min 256 (n - off))).
       destruct (hr <? 8) eqn:Eh; [left; eauto|]. apply Z.ltb_ge in Eh.
       assert (Hno : 8 <= n - off) by (unfold hr in Eh; lia).
-      destruct (parse_hdr (slice f off hr)) as [h hs| c |] eqn:Ep; [|left; eauto|left; eauto].
+      destruct (widen parse_hdr 8 f off (n - off) hr) as [h hs| c |] eqn:Ew; [|left; eauto|left; eauto].
+      destruct (widen_ok 8 f off (n - off) hr h hs) as (w' & Hw' & Ep); try (unfold hr, n in *; lia); [exact Ew|].
       apply parse_consumes_given in Ep.
-      assert (Hlen : Z.of_nat (length (slice f off hr)) = hr) by (apply slice_length; unfold hr; lia).
+      assert (Hlen : Z.of_nat (length (slice f off w')) = w') by (apply slice_length; unfold n in *; lia).
       destruct (type_verdict k (ph_type h)); [left; eauto|].
       destruct (ph_csize h <? 0) eqn:Ec; [left; eauto|]. apply Z.ltb_ge in Ec.
       set (dr := Z.max 0 (Z.min (ph_csize h) (n - (off + Z.of_nat hs)))).
@@ -275,6 +293,47 @@ Section WalkProofs.
   Notation load := (load parse_hdr current_pchecks).
   Notation walk := (walk parse_hdr current_pchecks).
 
+  Lemma widen_some : forall fuel f off avail w h hs,
+    widen parse_hdr fuel f off avail w = HdrOk h hs -> exists bs, parse_hdr bs = HdrOk h hs.
+  Proof.
+    induction fuel as [|fuel IH]; intros f off avail w h hs X; cbn [widen] in X.
+    - eexists; exact X.
+    - destruct (parse_hdr (slice f off w)) as [h0 hs0|c|] eqn:E.
+      + exists (slice f off w). rewrite E. exact X.
+      + destruct ((w <? avail) && (w <? window_max)); [eapply IH; eauto|discriminate].
+      + destruct ((w <? avail) && (w <? window_max)); [eapply IH; eauto|discriminate].
+  Qed.
+
+  (** the header size of a loaded page is the byte count of a successful header parse *)
+  Lemma load_ok_parse : forall p k f off l, load p k f off = Ok l ->
+    exists bs h hs, parse_hdr bs = HdrOk h hs /\ ld_hs l = Z.of_nat hs.
+  Proof.
+    intros p k f off l Hl. destruct p; simpl in Hl.
+    - unfold load_mapped in Hl. rewrite cur_window in Hl.
+      repeat match type of Hl with
+             | (if ?b then _ else _) = _ => destruct b; try discriminate
+             end.
+      destruct (widen parse_hdr 8 f off _ _) as [h hs|c|] eqn:Ew; try discriminate.
+      2: { repeat match type of Hl with (if ?b then _ else _) = _ => destruct b; try discriminate end. }
+      destruct (widen_some _ _ _ _ _ _ _ Ew) as [bs Hbs].
+      repeat match type of Hl with
+             | (if ?b then _ else _) = _ => destruct b; try discriminate
+             | match ?x with _ => _ end = _ => destruct x; try discriminate
+             end.
+      inversion Hl; subst; simpl. eauto.
+    - unfold load_stdio in Hl.
+      repeat match type of Hl with
+             | (if ?b then _ else _) = _ => destruct b; try discriminate
+             end.
+      destruct (widen parse_hdr 8 f off _ _) as [h hs|c|] eqn:Ew; try discriminate.
+      destruct (widen_some _ _ _ _ _ _ _ Ew) as [bs Hbs].
+      repeat match type of Hl with
+             | (if ?b then _ else _) = _ => destruct b; try discriminate
+             | match ?x with _ => _ end = _ => destruct x; try discriminate
+             end.
+      inversion Hl; subst; simpl. eauto.
+  Qed.
+
   Lemma load_ok_advances : forall p f off l, load p DataPage f off = Ok l ->
     0 <= off < Z.of_nat (length f) /\ 1 <= ld_hs l /\ 0 <= r_len (ld_body l) /\
     off + ld_hs l + r_len (ld_body l) <= Z.of_nat (length f).
@@ -285,22 +344,7 @@ Section WalkProofs.
     - rewrite Hl in H. inversion H; subst l'. clear H.
       destruct Hb as [Hb1 [Hb2 Hb3]]. split; [exact Hrange|].
       assert (H1 : 1 <= ld_hs l).
-      { (* the header size is the parser's count *)
-        destruct p; simpl in Hl.
-        - unfold load_mapped in Hl.
-          repeat match type of Hl with
-                 | (if ?b then _ else _) = _ => destruct b; try discriminate
-                 | match ?x with _ => _ end = _ => destruct x eqn:?; try discriminate
-                 end.
-          inversion Hl; subst; simpl.
-          match goal with Hq : parse_hdr _ = HdrOk _ _ |- _ => apply parse_consumes_some in Hq; lia end.
-        - unfold load_stdio in Hl.
-          repeat match type of Hl with
-                 | (if ?b then _ else _) = _ => destruct b; try discriminate
-                 | match ?x with _ => _ end = _ => destruct x eqn:?; try discriminate
-                 end.
-          inversion Hl; subst; simpl.
-          match goal with Hq : parse_hdr _ = HdrOk _ _ |- _ => apply parse_consumes_some in Hq; lia end. }
+      { destruct (load_ok_parse _ _ _ _ _ Hl) as (bs & h & hs & Hp & ->). apply parse_consumes_some in Hp. lia. }
       split; [exact H1|]. split; [exact Hb2|]. lia.
   Qed.
 
